@@ -157,10 +157,11 @@ Proof. exact delegated_sign_checked. Qed.
 Print Assumptions C10_delegated_sign_checked.
 
 (* without pairwise distinct role names the round trip is false: two roles named B in different
-   branches - the editor signs and writes, the client loads, and a target has disappeared *)
+   branches - the editor before the repair of F19 ([ed_sign_tree_gen ... false]: no check of the names)
+   signs and writes, the client loads, and a target has disappeared *)
 Theorem C10_distinct_names_refuted : forall cs,
   exists tg sn ts srv w rp,
-    ed_sign_tree x_len x_len (x_root cs) x_edit [4; 7] [dup_A; dup_B1] [1; 2; 3; 20] = Some (tg, sn, ts, srv)
+    ed_sign_tree_gen x_len x_len false (x_root cs) x_edit [4; 7] [dup_A; dup_B1] [1; 2; 3; 20] = Some (tg, sn, ts, srv)
     /\ root_verify (x_root cs) 0 (r_sigs (x_root cs)) = true
     /\ NoDup [1; 2; 3; 20] /\ (forall k, In k [1; 2; 3; 20] -> memN k (r_keys (x_root cs)) = true)
     /\ Forall (fun n => Forall (fun c => c < 256) (en_name n)) (all_roles [dup_A; dup_B1])
@@ -176,6 +177,17 @@ Theorem C10_distinct_names_refuted : forall cs,
     /\ map (fun ni => tn_raw (fst ni)) (targets_iter (rp_targets rp)) = [[116]].
 Proof. exact distinct_names_needed. Qed.
 Print Assumptions C10_distinct_names_refuted.
+
+(* since the repair of F19 the editor refuses such a tree, so that a successful sign implies the premise *)
+Theorem C10_sign_implies_distinct_names : forall (len_of dig_of : content -> N) r e dkeys ch keys res,
+  ed_sign_tree len_of dig_of r e dkeys ch keys = Some res -> NoDup (map en_name (all_roles ch)).
+Proof. exact ed_sign_tree_names. Qed.
+Print Assumptions C10_sign_implies_distinct_names.
+
+Theorem C10_duplicate_names_refused : forall cs,
+  ed_sign_tree x_len x_len (x_root cs) x_edit [4; 7] [dup_A; dup_B1] [1; 2; 3; 20] = None.
+Proof. exact duplicate_names_refused. Qed.
+Print Assumptions C10_duplicate_names_refused.
 
 (* without the condition on "<root version + 1>.root" it is false as well: file names without version
    prefix, root version 1, a delegated role named 2.root - the client takes that role's file for the
